@@ -376,7 +376,7 @@ class Run:
     if ticks remain); beyond the prefix choice 0 is taken. crash=(pid, step_index, cut): the process dies
     just BEFORE its step number step_index (cut None) or inside that write after `cut` units (cut int)."""
 
-    def __init__(self, root, clock, private_names, prefix=(), crash=None, ticks=0, sequential=False, record_keys=False, bufsize=None):
+    def __init__(self, root, clock, private_names, prefix=(), crash=None, ticks=0, sequential=False, record_keys=False, bufsize=None, fault=None):
         self.root = os.path.realpath(root) + os.sep
         self.record_keys = record_keys
         self.keys = []
@@ -385,6 +385,7 @@ class Run:
         self.private = tuple(private_names)
         self.prefix = list(prefix)
         self.crash = crash
+        self.fault = fault          # (pid, step index, errno): that file-system step FAILS with OSError instead of being carried out
         self.ticks_left = ticks
         self.procs = []
         self.by_thread = {}
@@ -456,6 +457,9 @@ class Run:
                 p.dead = True
                 raise Crash()
             return min(self.crash[2], detail or 0)
+        if self.fault is not None and self.fault[0] == p.pid and self.fault[1] == step:
+            self.log.append((p.pid, op + '!', self.rel(path), detail))
+            raise OSError(self.fault[2], os.strerror(self.fault[2]), path)
         if op == 'listdir':
             self.listed = True
         if not self.sequential:
